@@ -11,8 +11,8 @@ sys.path.insert(0, os.path.join(os.environ.get("ASPIRE_REPO", "/repo"), "src"))
 from ch import run_crosshair as rc  # noqa: E402
 
 CONDITIONS = (
-    [{"fn": f"_run_f{k}", "expect": "confirm", "timeout": 240} for k in range(10)]
-    + [{"fn": f"_run4_f{k}", "expect": "confirm", "timeout": 1800, "tiers": ("thorough",)} for k in range(10)]
+    [{"fn": f"_run_f{k}", "expect": "confirm", "timeout": 240} for k in range(12)]
+    + [{"fn": f"_run4_f{k}", "expect": "confirm", "timeout": 1800, "tiers": ("thorough",)} for k in range(12)]
     + [{"fn": "_twin", "expect": "refute", "timeout": 60}]
 )
 
@@ -42,7 +42,7 @@ def main():
         CONDITIONS,
         tier,
         explain={
-            "text": "CrossHair symbolic execution of program-encoded operation histories (10 operation kinds) on one checkpoint file through the real Aspire.fit / sample_posterior / auto_checkpoint / resume_from_file / save_config / save_flow / load_flow over dict-backed fakes; the file invariant is asserted after every operation",
+            "text": "CrossHair symbolic execution of program-encoded operation histories (12 operation kinds) on one checkpoint file through the real Aspire.fit / sample_posterior / auto_checkpoint / resume_from_file / save_config / save_flow / load_flow over dict-backed fakes; the file invariant is asserted after every operation",
             "functions": [
                 "aspire/aspire.py:Aspire.fit",
                 "aspire/aspire.py:Aspire.sample_posterior",
@@ -62,7 +62,7 @@ def main():
             "samplers -> FakeImportance (no checkpoint support, like the real one) and FakeSMC (writes a checkpoint tagged with its flow's identity; notes a resume under a different proposal); Aspire.get_sampler_class -> lookup of the fakes",
         ],
         outside=["histories longer than the bound", "HDF5 itself, real flows and samplers"],
-        bounds={"program_length": 3 if tier == "quick" else 4, "operation_kinds": 10},
+        bounds={"program_length": 3 if tier == "quick" else 4, "operation_kinds": 12},
         known_probes=PROBES,
     )
 
